@@ -9,7 +9,8 @@
  *   by the library), for cmpd/cmpq l|u|m (lower end / upper end / midpoint of the CURRENT isolating interval).
  * Output (one line): the structs of the initial pool, '|', one token per step, '|', the structs of all slots at the end.
  * A struct is printed by vio_print_alg from the fields the library holds (polynomial, interval ends, sign caches).
- * Step tokens (fields separated by ';'): arithmetic: result struct (neg also the operand before); observations: operand struct
+ * Step tokens (fields separated by ';'): arithmetic: result struct, then the operand structs AFTER the call (operands are
+ * refined through const pointers; neg / inv print the operand before first); observations: operand struct
  * before, scalar compared with, answer, operand struct after (comparisons refine the operand through the const pointer).
  * 'undef' = outside the documented domain (inverse of 0, root of a negative number), 'skip' = degrees too large for the
  * reference arithmetic of the model side; both decided here from the library's own sgn / degrees. */
@@ -125,7 +126,7 @@ static void do_step(char* step) {
     case 'm': lp_algebraic_number_mul(r, &pool[i], &pool[j]); break;
     default:  lp_algebraic_number_div(r, &pool[i], &pool[j]); break;
     }
-    vio_print_alg(r);
+    vio_print_alg(r); putchar(';'); vio_print_alg(&pool[i]); putchar(';'); vio_print_alg(&pool[j]);
   } else if (!strcmp(op, "neg")) {
     int k = a1, i = a2; if (!used[i]) { printf("badslot"); return; }
     vio_print_alg(&pool[i]); putchar(';');
@@ -138,20 +139,20 @@ static void do_step(char* step) {
     vio_print_alg(&pool[i]); putchar(';');
     lp_algebraic_number_t* r = out_slot(k);
     lp_algebraic_number_inv(r, &pool[i]);
-    vio_print_alg(r);
+    vio_print_alg(r); putchar(';'); vio_print_alg(&pool[i]);
   } else if (!strcmp(op, "pow")) {
     int k = a1, i = a2; unsigned n = (unsigned) a3; if (!used[i]) { printf("badslot"); return; }
     if (!pow_ok(&pool[i], n)) { printf("skip"); return; }
     lp_algebraic_number_t* r = out_slot(k);
     lp_algebraic_number_pow(r, &pool[i], n);
-    vio_print_alg(r);
+    vio_print_alg(r); putchar(';'); vio_print_alg(&pool[i]);
   } else if (!strcmp(op, "root")) {
     int k = a1, i = a2; unsigned n = (unsigned) a3; if (!used[i]) { printf("badslot"); return; }
     if (n == 0 || lp_algebraic_number_sgn(&pool[i]) < 0) { printf("undef"); return; }
     if (deg_of(&pool[i]) * n > DLIM && !(terms_of(&pool[i]) == 2 && small_sparse(&pool[i]) && deg_of(&pool[i]) * n <= 33)) { printf("skip"); return; }
     lp_algebraic_number_t* r = out_slot(k);
     lp_algebraic_number_positive_root(r, &pool[i], n);
-    vio_print_alg(r);
+    vio_print_alg(r); putchar(';'); vio_print_alg(&pool[i]);
   } else if (!strcmp(op, "copy")) {
     int k = a1, i = a2; if (!used[i] || k == i) { printf("badslot"); return; }
     if (used[k]) lp_algebraic_number_destruct(&pool[k]);
